@@ -37,9 +37,9 @@ SITE_DEFECT = dict(dmCopy="D1", iterInit="D13", gcPrivate="D14", closedDir="D18"
 RELEVANT = dict(qpoints={"dmCopy", "ompRound"}, mesh={"ompRound"}, itermesh={"iterInit", "gcPrivate", "iterFactor"},
                 band={"closedDir"}, direct=set())
 INV = ["TypeOK", "UndefinedVariableFree", "InvNoError", "InvFreq", "InvEigvec", "InvDynmat", "InvGV",
-       "InvGrid", "InvDiag", "InvSameOrder", "InvNoGarbage"]
+       "InvGrid", "InvDiag", "InvSameOrder", "InvNoGarbage", "InvPositionIndependent"]
 IMPL = ["ImplNoError", "ImplFreq", "ImplEigvec", "ImplDynmat", "ImplGV", "ImplGrid", "ImplDiag",
-        "ImplSameOrder", "ImplDiagNumeric", "ImplIterSame", "ImplPermutation", "ImplFiles"]
+        "ImplSameOrder", "ImplDiagNumeric", "ImplIterSame", "ImplPermutation", "ImplFiles", "ImplBulk"]
 ENTRIES_QUICK = ["tetab", "tric", "cscl", "tric~neg"]
 ENTRIES_THOROUGH = ["tetab", "tric", "cscl", "wz", "tric~neg"]
 
@@ -72,7 +72,7 @@ def event_json(e):
     o = e["out"]
     return json.dumps(dict(
         id=e["id"], cfg={k: e["cfg"][k] for k in CFG_FIELDS},
-        out={k: o[k] for k in ("err", "freq", "eigvec", "dm", "gv", "gc", "diag", "iter", "permok")},
+        out=dict({k: o[k] for k in ("err", "freq", "eigvec", "dm", "gv", "gc", "diag", "iter", "permok")}, bulk=o.get("bulk", "na")),
         files=e["files"]))
 
 
@@ -145,6 +145,62 @@ def start_drivers(ctx, cases, rundir):
     return procs
 
 
+def start_bulk(ctx, rundir):
+    """large batched calls, both builds (harness/c14_bulk.py); the OpenMP build with 4 threads"""
+    bdir = os.path.join(rundir, "bulk")
+    os.makedirs(bdir, exist_ok=True)
+    plan = os.path.join(bdir, "plan.json")
+    with open(plan, "w") as f:
+        json.dump(dict(seed=ctx.seed, entry="tetab", nq=4000 if ctx.quick else 12000, mesh=[12, 12, 12] if ctx.quick else [16, 16, 16],
+                       repeats=3 if ctx.quick else 6, sample=8, id_base=5000000), f)
+    procs = []
+    for var in ("omp", "serial"):
+        env = dict(os.environ, VERIF_EXT_VARIANT=var, OMP_NUM_THREADS="4", PYTHONWARNINGS="ignore", PYTHONDONTWRITEBYTECODE="1")
+        env.pop("OMP_WAIT_POLICY", None)
+        p = subprocess.Popen([sys.executable, "-m", "harness.c14_bulk", plan, bdir], cwd=VERIF, env=env,
+                             stdout=subprocess.PIPE, stderr=subprocess.STDOUT)
+        procs.append((var, p, bdir))
+    return procs
+
+
+def collect_bulk(ctx, procs):
+    data = {}
+    for var, p, bdir in procs:
+        so, _ = p.communicate(timeout=3000)
+        if p.returncode != 0:
+            raise tlcmod.MachineryError("c14 bulk driver (%s build) failed:\n%s" % (var, so.decode(errors="replace")[-3000:]))
+        with open(os.path.join(bdir, "bulk_%s.json" % var)) as f:
+            data[var] = json.load(f)
+        if data[var]["omp"] != (var == "omp"):
+            raise tlcmod.MachineryError("c14 bulk driver: build %s reports use_openmp()=%s" % (var, data[var]["omp"]))
+    bdir = procs[0][2]
+    events = []
+    worst = 0.0
+    for var in ("omp", "serial"):
+        for e in data[var]["events"]:
+            if var == "serial":
+                e["id"] += 100000
+            c, rep = e["cfg"], e["args"]["repeat"]
+            name = ("D" if c["path"] == "qpoints" else "F") + "_%s_" + c["nac"] + "_%d.npy"
+            a = np.load(os.path.join(bdir, name % (var, rep)))
+            b = np.load(os.path.join(bdir, name % ("serial" if var == "omp" else "omp", rep)))
+            d = float(np.abs(a - b).max() / max(1.0, np.abs(b).max())) if a.shape == b.shape else 1.0
+            e["bulk_facts"]["vs_other_build"] = d
+            if d > 1e-9 and var == "omp":      # the serial batch is the reference of this comparison
+                e["out"]["bulk"] = "bad"
+            if e["out"]["bulk"] == "ok":
+                worst = max([worst] + list(e["bulk_facts"].values()))
+            e["args"]["bulk_facts"] = e["bulk_facts"]
+            events.append(e)
+    ctx.extra["bulk"] = dict(events=len(events), worst_agreement_error_over_tolerance=worst / 1e-9,
+                             wall_s={v: round(data[v]["wall"], 1) for v in data},
+                             flagged=[dict(build="omp" if e["cfg"]["omp"] else "serial", path=e["cfg"]["path"], nac=e["cfg"]["nac"],
+                                           repeat=e["args"]["repeat"], facts=e["bulk_facts"]) for e in events if e["out"]["bulk"] == "bad"][:12])
+    if worst / 1e-9 > 1e-3:
+        raise tlcmod.MachineryError("c14: bulk agreement margin exhausted: %g" % worst)
+    return events
+
+
 def collect_drivers(procs):
     events = []
     info = {}
@@ -196,6 +252,10 @@ def class_tag(c):
     if c.get("fac", "vasp") != "vasp":
         tag.append("non-default-factor")
     return "/".join(tag)
+
+
+def class_tag_ev(e):
+    return class_tag(e["cfg"]) + ("/bulk-batch" if e["out"].get("bulk", "na") != "na" else "")
 
 
 def detect_variant(events, conf):
@@ -503,6 +563,7 @@ def run(ctx):
     rundir = tlcmod.new_rundir("c14drv")
     cases = make_plan(ctx, cfgs)
     procs = start_drivers(ctx, cases, rundir)
+    bprocs = start_bulk(ctx, rundir)
     hists, stale = history_model(ctx)
     hprocs = start_history_drivers(ctx, hists, rundir)
     pool = ThreadPoolExecutor(max_workers=3)
@@ -513,9 +574,10 @@ def run(ctx):
         from harness import bootstrap  # noqa: F401  (real estimate_band_connection for the replay below)
         band_connection(ctx)
         events, info = collect_drivers(procs)
+        events += collect_bulk(ctx, bprocs)
         history_validate(ctx, hprocs, stale)
     finally:
-        for _, p, _ in procs + hprocs:
+        for _, p, _ in procs + hprocs + bprocs:
             if p.poll() is None:
                 p.kill()
     ctx.extra["drivers"] = info
@@ -561,7 +623,7 @@ def run(ctx):
     groups = {}
     for eid, names in failed.items():
         for n in names:
-            groups.setdefault((n, class_tag(byid[eid]["cfg"])), []).append(eid)
+            groups.setdefault((n, class_tag_ev(byid[eid])), []).append(eid)
     for (n, tag), ids in sorted(groups.items()):
         wit = [dict(entry=byid[i]["entry"], cfg=byid[i]["cfg"], args=byid[i].get("args"), exc=byid[i].get("exc"),
                     observed={k: byid[i]["out"][k] for k in ("err", "freq", "eigvec", "dm", "gv", "gc", "diag", "iter", "permok")},
